@@ -229,7 +229,8 @@ class UnitRunner:
     def make_stub(self, key, st):
         def hook(ip_, f, self_val, args, kwargs):
             local = ip_.bind_args(f, self_val, list(args), dict(kwargs))
-            env = dict(local)
+            env = dict(ip_.spec_env)
+            env.update(local)
             ip_.path.assumptions.add(f"stub: {key} replaced by an assumed contract ({st.get('note', 'see sidecar')})")
             for r_i, r in enumerate(st.get("requires", [])):
                 ip_.oblige(f"pre@{key.split('::')[1]}#{r_i}", ip_.eval_spec_expr(r, env), {"requires": r})
